@@ -59,6 +59,41 @@ def const_str(node):
     return None
 
 
+def closure_functions_of(fn):
+    """fn plus the functions of its own module (module level, its class, enclosing functions) that it calls, transitively:
+    the unit a syntactic scan has to cover so that moving a closure out of its function changes nothing"""
+    root = fn
+    while getattr(root, '_parent', None) is not None:
+        root = root._parent
+    out = [fn]
+    todo = [fn]
+    while todo:
+        f = todo.pop()
+        called = set()
+        for n in ast.walk(f):
+            if isinstance(n, ast.Call):
+                if isinstance(n.func, ast.Name):
+                    called.add(n.func.id)
+                elif isinstance(n.func, ast.Attribute) and isinstance(n.func.value, ast.Name) and n.func.value.id in ('self', 'cls'):
+                    called.add(n.func.attr)
+        scope = getattr(f, '_parent', None)
+        while scope is not None:
+            for n in getattr(scope, 'body', []):
+                if isinstance(n, (ast.FunctionDef, ast.AsyncFunctionDef)) and n.name in called and n not in out \
+                        and not any(n in ast.walk(o) for o in out):
+                    out.append(n)
+                    todo.append(n)
+            scope = getattr(scope, '_parent', None)
+    return out
+
+
+def closure_walk(fn):
+    """ast.walk over fn and the same-module helpers it calls (see closure_functions_of)"""
+    for f in closure_functions_of(fn):
+        for n in ast.walk(f):
+            yield n
+
+
 def dotted(node):
     """'a.b.c' for Name/Attribute chains, else None."""
     parts = []
@@ -108,12 +143,47 @@ class PyModule(object):
                           and getattr(n, '_parent', None) is not None and enclosing_function(n) is node]
                 if len(nested) == 1:
                     found = nested[0]
+                else:
+                    found = self._helper_by_role(node, nested)
             if found is None:
                 if required:
                     raise AnalysisError('%s: definition %r not found' % (self.rel, qualname))
                 return None
             node = found
         return node
+
+    def _helper_by_role(self, entry, nested):
+        """the recursive helper of `entry` when it is not found by name: the one self-recursive closure of entry, or
+        the one self-recursive function / method of the enclosing scope that entry calls (a closure that was moved out)"""
+        def calls_self(fn):
+            for n in ast.walk(fn):
+                if isinstance(n, ast.Call):
+                    f = n.func
+                    if isinstance(f, ast.Name) and f.id == fn.name:
+                        return True
+                    if isinstance(f, ast.Attribute) and f.attr == fn.name and isinstance(f.value, ast.Name):
+                        return True
+            return False
+        rec = [n for n in nested if calls_self(n)]
+        if len(rec) == 1:
+            return rec[0]
+        if rec:
+            return None
+        called = set()
+        for n in ast.walk(entry):
+            if isinstance(n, ast.Call):
+                if isinstance(n.func, ast.Name):
+                    called.add(n.func.id)
+                elif isinstance(n.func, ast.Attribute) and isinstance(n.func.value, ast.Name) and n.func.value.id in ('self', 'cls'):
+                    called.add(n.func.attr)
+        scope = getattr(entry, '_parent', None)
+        cands = []
+        while scope is not None:
+            for n in getattr(scope, 'body', []):
+                if isinstance(n, (ast.FunctionDef, ast.AsyncFunctionDef)) and n is not entry and n.name in called and calls_self(n):
+                    cands.append(n)
+            scope = getattr(scope, '_parent', None)
+        return cands[0] if len(cands) == 1 else None
 
     def functions(self, top_only=True):
         out = []
